@@ -228,6 +228,10 @@ class _Pool(Identity):
                 continue
             out.append({"N": 1, "C": 1 if self.is_max else 1 + idx % 2, "H": hw[0], "W": hw[1], "k": list(k), "s": list(s),
                         "p": list(p), "d": list(d)})
+        # the documented int spelling of square geometries (the layer classes turn ints into pairs, the functional form does not)
+        out.append({"N": 1, "C": 1, "H": 2, "W": 3 if not self.is_max else 2, "k": [2, 2], "s": [1, 1], "p": [0, 0], "d": [1, 1], "ints": True})
+        if not self.is_max:
+            out.append({"N": 1, "C": 2, "H": 3, "W": 3, "k": [2, 2], "s": [2, 2], "p": [1, 1], "d": [1, 1], "ints": True})
         return out
 
     def inputs(self, a):
@@ -235,6 +239,8 @@ class _Pool(Identity):
 
     def lhs(self, a, ts):
         f = NF().max_pool2d if self.is_max else NF().avg_pool2d
+        if a.get("ints"):
+            return f(ts[0], a["k"][0], a["s"][0], a["p"][0], a["d"][0])
         return f(ts[0], tuple(a["k"]), tuple(a["s"]), tuple(a["p"]), tuple(a["d"]))
 
     def rhs(self, a, ts):
